@@ -18,6 +18,7 @@ package atomic
 //@ pure cnt(a *Counter, k string) Int = nodeOf(a, k) == nil ? 0 : nodeOf(a, k).count
 
 //@ func Counter.getNode
+//@   params a, key, autoCreate
 //@   tags C05
 //@   safety assert-type
 //@   requires cwf(a)
@@ -32,6 +33,7 @@ package atomic
 //@   ensures [C05] view-unchanged: forall k string :: cnt(a, k) == old(cnt(a, k))
 
 //@ func Counter.Add
+//@   params a, key
 //@   tags C05
 //@   safety nil
 //@   requires cwf(a)
@@ -41,6 +43,7 @@ package atomic
 //@   ensures [C05] view: forall k string :: cnt(a, k) == (k == key ? old(cnt(a, k)) + 1 : old(cnt(a, k)))
 
 //@ func Counter.Remove
+//@   params a, key
 //@   tags C05
 //@   safety nil
 //@   requires cwf(a)
@@ -50,6 +53,7 @@ package atomic
 //@   ensures [C05] view: forall k string :: cnt(a, k) == (k == key ? old(cnt(a, k)) - 1 : old(cnt(a, k)))
 
 //@ func Counter.Get
+//@   params a, key
 //@   tags C05
 //@   safety nil
 //@   requires cwf(a)
